@@ -35,6 +35,9 @@ def rtxt(r):
 def line_pool():
     single = [rtxt(r) + (' ' + p if p else '') for r in R1 for p in P]
     multi = [rtxt(a) + ',' + rtxt(b) + ' a="2"' for a in R1[:4] for b in R1[4:]]
+    # the longer range first, and three ranges of mixed lengths on one line
+    multi += [rtxt(b) + ',' + rtxt(a) + ' a="2"' for a in R1[:4] for b in R1[4:]][::3]
+    multi += ['00-11,0,2 b="3"', '10-22,1,20-22 a="1"']
     return single + multi
 
 
